@@ -10,6 +10,11 @@
 //	w<k>                  LocRIB.RemovePath of object k
 //	x<A|B><chain>         ReplaceFilterChain on that session
 //	d<A|B><k>             AdjRIBOut.AddPath(pfx of k, object k) on that session (advertise it again)
+//	N<0|1><0|1>           (first op only) whether A's / B's peer negotiated 4-octet ASNs (default: both did)
+//
+// Behind each Adj-RIB-Out sits a REAL UpdateSender (hook verif_hooks_c10.go, bound to a discarding writer) as
+// fsmAddressFamily.init registers it; after every op both senders are flushed (Dequeue + EmitAll per queued path),
+// so AddPath / RemovePath / packing / serialization of the last export-side consumer lie inside the snapshots.
 //
 // Observation, one token per op:  <stream>#<view>#<tableA>#<tableB>#<pathclasses>/<blockclasses>
 //
@@ -20,12 +25,14 @@ package main
 
 import (
 	"fmt"
+	"io"
 	"os"
 	"sort"
 	"strconv"
 	"strings"
 	"time"
 
+	"github.com/bio-routing/bio-rd/protocols/bgp/server"
 	"github.com/bio-routing/bio-rd/route"
 	"github.com/bio-routing/bio-rd/routingtable"
 	"github.com/bio-routing/bio-rd/routingtable/adjRIBIn"
@@ -58,6 +65,8 @@ func (o op) token() string {
 		return fmt.Sprintf("n%d=%s:%s", o.pfx, o.path.Token(), map[bool]string{true: "1", false: "0"}[o.dedup])
 	case 'w':
 		return fmt.Sprintf("w%d", o.k)
+	case 'N':
+		return fmt.Sprintf("N%d%d", o.pfx, o.k)
 	case 'x':
 		return fmt.Sprintf("x%c%s", o.who, o.chain.Token())
 	}
@@ -115,6 +124,11 @@ func parseCase(in string) (tcase, error) {
 			if o.k, err = strconv.Atoi(t[1:]); err != nil {
 				return c, err
 			}
+		case 'N':
+			if len(t) != 3 {
+				return c, fmt.Errorf("bad op %q", t)
+			}
+			o.pfx, o.k = int(t[1]-'0'), int(t[2]-'0')
 		case 'x':
 			o.who = t[1]
 			if o.chain, err = aro.ParseChain(t[2:]); err != nil {
@@ -221,9 +235,16 @@ func runCase(c tcase) (obs string, v *verdict, nontrivial bool) {
 	var a [2]*adjRIBOut.AdjRIBOut
 	var ev []string
 	ids := map[*route.Path]int{}
+	asn4 := [2]bool{true, true}
+	if len(c.ops) > 0 && c.ops[0].kind == 'N' {
+		asn4 = [2]bool{c.ops[0].pfx == 1, c.ops[0].k == 1}
+	}
+	var snd [2]*server.VerifUS
 	for i := 0; i < 2; i++ {
 		a[i] = adjRIBOut.New(lr, c.sess[i].Attrs(), c.chain[i].Build())
-		a[i].Register(aro.NewRec())
+		snd[i] = server.VerifUSNew(server.VerifUSOptions{AddPathTX: c.sess[i].MaxPaths > 0, IBGP: c.sess[i].IBGP(),
+			RRClient: c.sess[i].Kind == "rr", ASN4: asn4[i]}, io.Discard)
+		a[i].Register(snd[i].VerifUSSender())
 		lr.RegisterWithOptions(a[i], c.sess[i].ClientOptions())
 		lr.RegisterWithOptions(&spy{name: string(rune('A' + i)), ids: ids, ev: &ev}, c.sess[i].ClientOptions())
 	}
@@ -297,6 +318,14 @@ func runCase(c tcase) (obs string, v *verdict, nontrivial bool) {
 				nontrivial = true
 			}
 		}
+		// the update senders pack and write what was queued
+		for i := 0; i < 2; i++ {
+			for _, key := range snd[i].Keys() {
+				if b := snd[i].Dequeue(key); b != nil {
+					snd[i].EmitAll(b)
+				}
+			}
+		}
 		stream := aro.JoinOrDash(ev, ",")
 		ev = nil
 
@@ -365,6 +394,7 @@ func gen(r *hx.RNG, t *hx.Trace) tcase {
 		}
 		t.Count("sess_" + c.sess[i].Kind)
 	}
+	c.ops = append(c.ops, op{kind: 'N', pfx: r.Intn(2), k: r.Intn(2)})
 	o := aro.DefaultGen
 	o.Static = 10
 	n := 4 + r.Intn(12)
@@ -393,6 +423,15 @@ func gen(r *hx.RNG, t *hx.Trace) tcase {
 			}
 			if p.Static && p.StaticNil {
 				p.StaticNil, p.NH = false, 0x05050505
+			}
+			if !p.Static && r.Chance(45) { // 4-octet ASNs in the first and in later segments, in sequences and sets
+				for si := range p.ASPath {
+					for ai := range p.ASPath[si].ASNs {
+						if r.Chance(50) {
+							p.ASPath[si].ASNs[ai] = 4200000000 + uint32(r.Intn(3))
+						}
+					}
+				}
 			}
 			p.Agg = nil // an AGGREGATOR is a pointer inside BGPPathA: such blocks are only ever shared by copies of one object
 			pool = append(pool, p)
